@@ -36,7 +36,8 @@ import (
 //                  requester is forwarded over the real cross-node TCP link) | racing
 //                  (victim source open and requester open issued concurrently)
 //   mapping state  active | revoked | revoked-reactivated (revoked, then status set back to
-//                  active) | expired | inactive | missing  (reached through the real
+//                  active) | expired-1s | expired-1m | expired-1h (stored ExpiresAt that far
+//                  in the past) | inactive | missing  (reached through the real
 //                  services AFTER the victim's tunnel was set up)
 //   identity       unauth | unauth-p1 (phase-1 of the handshake claiming the listen
 //                  client's id, never answered) | listen | target | other
@@ -68,9 +69,17 @@ func (c c04Cell) key() string {
 var (
 	c04Kinds      = []string{"keyed", "conncode"}
 	c04Tunnels    = []string{"none", "waiting", "served"}
-	c04MapStates  = []string{"active", "revoked", "revoked-reactivated", "expired", "inactive", "missing"}
+	c04MapStates  = []string{"active", "revoked", "revoked-reactivated", "expired-1s", "expired-1m", "expired-1h", "inactive", "missing"}
 	c04Identities = []string{"unauth", "unauth-p1", "listen", "target", "other"}
 	c04Creds      = []string{"id", "id+secret", "id+wrong", "resume", "none"}
+
+	// how far in the past the stored ExpiresAt lies (a mapping that expired a second ago is expired)
+	c04ExpiryOffsets = map[string]time.Duration{"expired-1s": time.Second, "expired-1m": time.Minute, "expired-1h": time.Hour}
+)
+
+const (
+	c04Rereads      = 50 // bound of every re-read barrier: a count of reads, never a duration
+	c04MaxSetupFail = 12 // a run that cannot establish this many cells stops (inconclusive) instead of crawling
 )
 
 // c04Policy is the reference policy of the statement. ambiguous: the statement does not
@@ -148,6 +157,7 @@ type c04World struct {
 	tunnel  string
 	vL, vT  *c04End
 	vTFirst bool
+	wantExp time.Time // the ExpiresAt written for an expired-* cell
 	rq      *c04End
 	seq     int
 	mu      sync.Mutex
@@ -377,21 +387,22 @@ func (w *c04World) setMapState() error {
 		}
 		// the status update is a read-modify-write; its read must not be handed the
 		// pre-revocation value by the repository's singleflight (see the barrier in runCell)
-		for try := 0; try < 2000; try++ {
-			if m, err := w.n.CC.GetPortMapping(w.mapID); err == nil && m.IsRevoked {
+		for try := 0; try < c04Rereads; try++ {
+			if m, err := w.n.CC.GetPortMapping(w.mapID); err == nil && m.IsRevoked { // stored flag
 				break
 			}
 			w.run.Count("map_state_reread", 1)
-			time.Sleep(500 * time.Microsecond)
+			time.Sleep(200 * time.Microsecond) // pause between re-reads; the bound is the count
 		}
 		return w.n.CC.UpdatePortMappingStatus(w.mapID, models.MappingStatusActive)
-	case "expired":
+	case "expired-1s", "expired-1m", "expired-1h":
 		m, err := w.n.CC.GetPortMapping(w.mapID)
 		if err != nil {
 			return err
 		}
-		past := time.Now().Add(-time.Minute)
+		past := time.Now().Add(-c04ExpiryOffsets[w.cell.MapState]).Round(0)
 		m.ExpiresAt = &past
+		w.wantExp = past
 		return w.n.CC.UpdatePortMapping(m)
 	case "inactive":
 		return w.n.CC.UpdatePortMappingStatus(w.mapID, models.MappingStatusInactive)
@@ -401,7 +412,9 @@ func (w *c04World) setMapState() error {
 	return fmt.Errorf("unknown map state %q", w.cell.MapState)
 }
 
-// checkMapState confirms the state is what the services report.
+// checkMapState confirms, from the FIELDS read back from the repository (never from the
+// implementation's own IsExpired/IsValid verdict, which is part of what is under test),
+// that the stored mapping is in the cell's state.
 func (w *c04World) checkMapState() error {
 	m, err := w.n.CC.GetPortMapping(w.mapID)
 	switch w.cell.MapState {
@@ -416,8 +429,8 @@ func (w *c04World) checkMapState() error {
 	}
 	switch w.cell.MapState {
 	case "active":
-		if !m.IsValid() {
-			return fmt.Errorf("mapping not valid")
+		if m.Status != models.MappingStatusActive || m.IsRevoked || (m.ExpiresAt != nil && !m.ExpiresAt.After(time.Now().Add(time.Minute))) {
+			return fmt.Errorf("stored mapping not active/unrevoked/unexpired")
 		}
 	case "revoked":
 		if !m.IsRevoked {
@@ -427,13 +440,16 @@ func (w *c04World) checkMapState() error {
 		if !m.IsRevoked || m.Status != models.MappingStatusActive {
 			return fmt.Errorf("mapping not revoked+status-active")
 		}
-	case "expired":
-		if !m.IsExpired() {
-			return fmt.Errorf("mapping not expired")
+	case "expired-1s", "expired-1m", "expired-1h":
+		if m.ExpiresAt == nil || !m.ExpiresAt.Equal(w.wantExp) || !w.wantExp.Before(time.Now()) {
+			return fmt.Errorf("stored ExpiresAt %v is not the written past instant %v", m.ExpiresAt, w.wantExp)
+		}
+		if m.Status != models.MappingStatusActive || m.IsRevoked {
+			return fmt.Errorf("expired cell: stored status/revoked flag changed")
 		}
 	case "inactive":
-		if m.Status == models.MappingStatusActive || m.IsRevoked || m.IsExpired() {
-			return fmt.Errorf("mapping not plain-inactive")
+		if m.Status != models.MappingStatusInactive || m.IsRevoked || (m.ExpiresAt != nil && !m.ExpiresAt.After(time.Now())) {
+			return fmt.Errorf("stored mapping not plain-inactive")
 		}
 	}
 	return nil
@@ -590,12 +606,12 @@ func c04RunCell(t *testing.T, run *vk.Run, cell c04Cell, idx int) (obs c04Obs, o
 	// open) can still be handed to a later caller; once a read reports the new state every
 	// later read does too.
 	var stErr error
-	for try := 0; try < 2000; try++ {
+	for try := 0; try < c04Rereads; try++ {
 		if stErr = w.checkMapState(); stErr == nil {
 			break
 		}
 		run.Count("map_state_reread", 1)
-		time.Sleep(500 * time.Microsecond)
+		time.Sleep(200 * time.Microsecond) // pause between re-reads; the bound is the count
 	}
 	if stErr != nil {
 		return fail("map state: %v", stErr)
@@ -809,6 +825,10 @@ func c04RunMatrix(t *testing.T, run *vk.Run, cells []c04Cell) {
 		if !ok {
 			run.Count("cells_setup_failed", 1)
 			run.Observe("setup_failed|"+cell.key(), obs)
+			if run.Counter("cells_setup_failed") >= c04MaxSetupFail {
+				run.Observe("aborted", fmt.Sprintf("%d cells could not be set up; stopping at cell %d of %d (inconclusive through the cells_executed floor)", c04MaxSetupFail, i, len(cells)))
+				return
+			}
 			continue
 		}
 		run.Eval(1)
@@ -871,6 +891,10 @@ func TestVerifC04Race(t *testing.T) {
 		obs, ok := c04RunCell(t, run, cell, 100000+i)
 		if !ok {
 			run.Count("cells_setup_failed", 1)
+			if run.Counter("cells_setup_failed") >= c04MaxSetupFail {
+				run.Observe("aborted", "too many cells could not be set up")
+				break
+			}
 			continue
 		}
 		run.Eval(1)
